@@ -784,6 +784,10 @@ class Interp:
                 pass
         if self.spec_depth:
             raise SpecError("unknown name %r in contract clause" % name)
+        if fc0 is not None and fc0.file:
+            afc = self.auto_inline_function(fc0.file, name)
+            if afc is not None:
+                return VFn("func", key=afc.key)
         raise Unsupported("unknown name %r" % name)
 
     def e_Tuple(self, n):
@@ -1721,7 +1725,70 @@ class Interp:
             self.frames.pop()
 
     # ---- using a contract at a call site
+    def _memo_confusion(self, fc, args):
+        """functools.lru_cache / cache (typed=False) keys its entries by == and hash: 1, 1.0 and True share ONE entry.
+        A call may therefore return what the body computed EARLIER for an equal argument of another numeric type.
+        Modelled as a fork: the body runs on the argument itself, or on an equal value of another type."""
+        out = list(args)
+        for i, a in enumerate(args):
+            v = self.force(a)
+            out[i] = v
+            if v.tag not in ("bool", "int", "real"):
+                continue
+            k = self.ctx.fork(3)
+            if k == 0:
+                continue
+            self.note("@lru_cache on %s: a cached result computed for an EQUAL key of another type (1 == 1.0 == True) "
+                      "may be returned (typed=False)" % fc.key)
+            if v.tag == "bool":
+                out[i] = VInt(z3.If(v.t, 1, 0)) if k == 1 else VReal(z3.If(v.t, z3.RealVal(1), z3.RealVal(0)))
+            elif v.tag == "int":
+                if k == 1:
+                    out[i] = VReal(z3.ToReal(v.t))
+                else:
+                    self.ctx.assume(z3.Or(v.t == 0, v.t == 1))
+                    out[i] = VBool(v.t == 1)
+            else:
+                self.ctx.assume(v.t == z3.ToReal(z3.ToInt(v.t)))
+                if k == 1:
+                    out[i] = VInt(z3.ToInt(v.t))
+                else:
+                    self.ctx.assume(z3.Or(v.t == 0, v.t == 1))
+                    out[i] = VBool(v.t == 1)
+        return out
+
+    def auto_inline_function(self, file, name):
+        """a module-level helper function without a contract (e.g. introduced by a refactoring), called from a function
+        under contract: its real body is read from the same source file and executed in line.  A memoising decorator
+        (functools.lru_cache / cache without typed=True) is modelled by _memo_confusion; any other decorator is not
+        supported."""
+        from . import extract as X
+        import ast as _ast
+        try:
+            node, _ = X.find_def(file, name)
+        except X.ExtractError:
+            return None
+        if not isinstance(node, (_ast.FunctionDef, _ast.AsyncFunctionDef)):
+            return None
+        memo = False
+        for d in node.decorator_list:
+            txt = _ast.unparse(d)
+            base = txt.split("(")[0].split(".")[-1]
+            if base in ("lru_cache", "cache") and "typed=True" not in txt.replace(" ", ""):
+                memo = True
+            elif base in ("lru_cache", "cache", "staticmethod"):
+                pass
+            else:
+                raise Unsupported("helper %s carries decorator @%s" % (name, txt))
+        fc = self.cset.fn(name, file=file, inline=True, no_inv=True)
+        fc.auto_inlined = True
+        fc.memo_untyped = memo
+        self.note("helper function %s has no contract of its own: its real body (%s) is executed in line" % (name, file))
+        return fc
+
     def call_contract(self, fc, recv, args, kwargs, node):
+        if getattr(fc, "memo_untyped", False) and not self.spec_depth:
+            args = self._memo_confusion(fc, args)
         env = self.bind(fc, recv, args, kwargs)
         if fc.model is not None:
             if fc.requires and not self.spec_depth:
